@@ -152,7 +152,7 @@ var reTagLine = regexp.MustCompile(`^T(\d+) (OK|NO|BAD)`)
 func runC10(h *H) {
 	imports := []string{"From GoImap.Base Require Import Bytes.", "From GoImap.Model Require Import ClientConn ClientConnCorr."}
 	corr := h.NewCorr("faults", imports, "cc_mismatches", 400).Type("cc_case")
-	h.Rule("for each operation of a corpus covering the client's blocking calls (NOOP, LOGIN, SELECT, LIST with Collect, FETCH with a body literal consumed through Next/LiteralReader, FETCH of a message with 40 data items (more than the per-message channel holds), APPEND with a synchronising literal, IDLE start/Close, SEARCH, STATUS, EXPUNGE, STORE, COPY, AUTHENTICATE PLAIN, two pipelined commands, NOOP and a pipelined NOOP/FETCH/STATUS answered after an unsolicited BYE) the scripted server's complete reply is cut at EVERY byte offset (quick tier: every offset for EOF, every 3rd for the others) with the fault EOF / read error / stall-until-the-client's-own-deadline (virtual time) / stall-until-Close, plus write errors at every offset of the client's output; the caller's blocking call, Client.Close and the exit of the client's goroutines are each guarded by a watchdog. Oracle: everything returns; a stall in the middle of a response line meets a read deadline of the client (between responses the client waits without one by design); a command whose tagged completion had not fully arrived reports an error. Model: the completed/failed status of every command equals the model's after the delivered response lines followed by the connection loss. Non-trivial = the cut falls before the final tagged line; distinct by (operation, fault, offset).")
+	h.Rule("for each operation of a corpus covering the client's blocking calls (NOOP, LOGIN, SELECT, LIST with Collect, FETCH with a body literal consumed through Next/LiteralReader, FETCH of a message with 40 data items (more than the per-message channel holds), APPEND with a synchronising literal, IDLE start/Close, SEARCH, STATUS, EXPUNGE, STORE, COPY, AUTHENTICATE PLAIN, two pipelined commands, AUTHENTICATE PLAIN whose empty challenge and tagged NO arrive in one segment, Move on a server without MOVE (COPY + STORE + EXPUNGE pipelined) whose COPY is refused while the EXPUNGE reports 140 messages, NOOP and a pipelined NOOP/FETCH/STATUS answered after an unsolicited BYE) the scripted server's complete reply is cut at EVERY byte offset (quick tier: every offset for EOF, every 3rd for the others) with the fault EOF / read error / stall-until-the-client's-own-deadline (virtual time) / stall-until-Close, plus write errors at every offset of the client's output; the caller's blocking call, Client.Close and the exit of the client's goroutines are each guarded by a watchdog. Oracle: everything returns; a stall in the middle of a response line meets a read deadline of the client (between responses the client waits without one by design); a command whose tagged completion had not fully arrived reports an error. Model: the completed/failed status of every command equals the model's after the delivered response lines followed by the connection loss. Non-trivial = the cut falls before the final tagged line; distinct by (operation, fault, offset).")
 
 	idleTag := ""
 	generic := func(p *scriptedPeer, c *peerCmd) {
@@ -212,7 +212,59 @@ func runC10(h *H) {
 		}
 		generic(p, c)
 	}
+	// AUTHENTICATE PLAIN without SASL-IR: the server sends its (empty) challenge and, in the same
+	// write, refuses the command — the tagged completion overtakes the client's next
+	// continuation request
+	authRefusedEarly := func(p *scriptedPeer, c *peerCmd) {
+		if c.Name == "AUTHENTICATE" {
+			p.Send("+ \r\n" + c.Tag + " NO [AUTHENTICATIONFAILED] go away\r\n")
+			return
+		}
+		if strings.HasPrefix(c.Tag, "T") {
+			generic(p, c)
+		}
+		// anything else is the SASL response the client wrote after the refusal: not a command
+	}
+	// a server without MOVE: Move falls back to COPY + STORE + EXPUNGE, pipelined; the COPY is
+	// refused, the STORE and the EXPUNGE (140 messages: more than the EXPUNGE stream buffers) run
+	moveFallback := func(p *scriptedPeer, c *peerCmd) {
+		switch c.Name {
+		case "COPY":
+			p.Send(c.Tag + " NO [TRYCREATE] no such mailbox\r\n")
+		case "STORE":
+			p.Send(c.Tag + " OK stored\r\n")
+		case "EXPUNGE":
+			p.Send(strings.Repeat("* 1 EXPUNGE\r\n", 140) + c.Tag + " OK expunged\r\n")
+		default:
+			generic(p, c)
+		}
+	}
+	// the documented outcome of these two operations is the server's NO: everything else is a failure
+	wantNo := func(err error) error {
+		var ie *imap.Error
+		if errors.As(err, &ie) && ie.Type == imap.StatusResponseTypeNo {
+			return nil
+		}
+		if err == nil {
+			return fmt.Errorf("reported success although the server answered NO")
+		}
+		return err
+	}
 	ops := []c10Op{
+		{"authenticate-challenge-then-no", func(c *imapclient.Client) error {
+			return wantNo(c.Authenticate(sasl.NewPlainClient("", "u", "p")))
+		}, authRefusedEarly},
+		{"move-fallback-copy-refused", func(c *imapclient.Client) error {
+			var set imap.SeqSet
+			set.AddRange(1, 140)
+			_, err := c.Move(set, "Nope").Wait()
+			if err := wantNo(err); err != nil {
+				return err
+			}
+			// the three commands of the fallback are behind us only if the connection still
+			// answers: a NOOP round trip closes the operation
+			return c.Noop().Wait()
+		}, moveFallback},
 		{"noop", func(c *imapclient.Client) error { return c.Noop().Wait() }, generic},
 		{"fetch-many-items-collect", func(c *imapclient.Client) error {
 			_, err := c.Fetch(imap.SeqSetNum(1, 2), &imap.FetchOptions{UID: true}).Collect()
@@ -463,7 +515,20 @@ func runC10(h *H) {
 		full := runOne(op, "none", 0)
 		c10FullLen[op.name] = full
 		h.Note("%s: %d reply bytes", op.name, full)
+		if h.failed("call-hangs:"+op.name+":none") || h.failed("close-hangs:"+op.name+":none") {
+			// the operation hangs without any fault: every cut would hang the same way
+			continue
+		}
+		stride := 1
+		if full > 600 {
+			// a long reply of identical lines: every offset of the first 150 bytes and of the last
+			// 150, every 7th in between (quick tier)
+			stride = h.Pick(7, 1)
+		}
 		for cut := 0; cut <= full; cut++ {
+			if stride > 1 && cut > 150 && cut < full-150 && cut%stride != 0 {
+				continue
+			}
 			runOne(op, "eof", cut)
 			if cut%h.Pick(3, 1) == 0 {
 				runOne(op, "readerr", cut)
